@@ -5,6 +5,7 @@ import (
 	"go/types"
 	"sort"
 	"strings"
+	"time"
 )
 
 // AtomInfo is the domain of one input atom.
@@ -15,8 +16,9 @@ type AtomInfo struct {
 
 // Path is the state of one explored path.
 type Path struct {
-	readSeq int // transport reads met so far (FailReads)
-	E *Engine
+	readSeq  int       // transport reads met so far (FailReads)
+	deadline time.Time // wall-clock limit of the run this path belongs to
+	E        *Engine
 
 	decisions []bool
 	dpos      int
@@ -27,15 +29,15 @@ type Path struct {
 	Assumed map[string]bool         // opaque predicate key -> truth
 	Atoms   map[string]*AtomInfo
 
-	nextObj int
-	Sinks   map[string]*Obj // writer access path -> bytes written
-	Notes   []string
-	Bounds  []BoundOb
-	NilNames map[string]bool // lazily symbolic pointers/interfaces/slices with these names are nil
-	Keep    map[string]Value // harness scratch: arguments kept for result inspection
-	Abort   string // non-empty: the path could not be interpreted ("unsupported ...")
-	Panics  string // non-empty: the path ends in a panic
-	steps   int
+	nextObj  int
+	Sinks    map[string]*Obj // writer access path -> bytes written
+	Notes    []string
+	Bounds   []BoundOb
+	NilNames map[string]bool  // lazily symbolic pointers/interfaces/slices with these names are nil
+	Keep     map[string]Value // harness scratch: arguments kept for result inspection
+	Abort    string           // non-empty: the path could not be interpreted ("unsupported ...")
+	Panics   string           // non-empty: the path ends in a panic
+	steps    int
 }
 
 // BoundOb is one bounds obligation met on a path.
